@@ -103,6 +103,64 @@ pub fn run_limited(exe: &Path, args: &[&str], cwd: &Path, mem_kib: u64, timeout:
     Run { stdout, stderr, code: status.code(), signal: status.signal(), timed_out, wall: t0.elapsed() }
 }
 
+/// Like `run_limited`, and also reports the peak resident set size (KiB) of the process (measured by
+/// `/usr/bin/time`; None when it could not be measured, e.g. after a timeout). The whole process group
+/// is killed on a timeout.
+pub fn run_measured(exe: &Path, args: &[&str], cwd: &Path, mem_kib: u64, timeout: Duration) -> (Run, Option<u64>) {
+    use std::os::unix::process::{CommandExt, ExitStatusExt};
+    static N: std::sync::atomic::AtomicU64 = std::sync::atomic::AtomicU64::new(0);
+    let rss_file = cwd.join(format!(".rss-{}-{}", std::process::id(), N.fetch_add(1, std::sync::atomic::Ordering::Relaxed)));
+    let sh = format!("ulimit -v {mem_kib}; ulimit -c 0; exec /usr/bin/time -o \"$RSS_FILE\" -f %M \"$0\" \"$@\"");
+    let mut cmd = Command::new("sh");
+    cmd.arg("-c").arg(sh).arg(exe);
+    for a in args {
+        cmd.arg(a);
+    }
+    cmd.current_dir(cwd)
+        .env("RUST_BACKTRACE", "0")
+        .env("RSS_FILE", &rss_file)
+        .env_remove("NO_COLOR")
+        .stdin(Stdio::null())
+        .stdout(Stdio::piped())
+        .stderr(Stdio::piped())
+        .process_group(0);
+    let t0 = Instant::now();
+    let mut child = cmd.spawn().expect("spawn rva");
+    let pgid = child.id();
+    let mut out = child.stdout.take().expect("stdout");
+    let mut err = child.stderr.take().expect("stderr");
+    let ho = std::thread::spawn(move || {
+        let mut v = Vec::new();
+        let _ = out.read_to_end(&mut v);
+        v
+    });
+    let he = std::thread::spawn(move || {
+        let mut v = Vec::new();
+        let _ = err.read_to_end(&mut v);
+        v
+    });
+    let mut timed_out = false;
+    let status = loop {
+        match child.try_wait() {
+            Ok(Some(s)) => break s,
+            Ok(None) => {
+                if t0.elapsed() > timeout {
+                    timed_out = true;
+                    let _ = Command::new("kill").arg("-9").arg("--").arg(format!("-{pgid}")).status();
+                    break child.wait().expect("wait");
+                }
+                std::thread::sleep(Duration::from_millis(2));
+            }
+            Err(_) => break child.wait().expect("wait"),
+        }
+    };
+    let stdout = String::from_utf8_lossy(&ho.join().unwrap_or_default()).into_owned();
+    let stderr = String::from_utf8_lossy(&he.join().unwrap_or_default()).into_owned();
+    let rss = std::fs::read_to_string(&rss_file).ok().and_then(|t| t.lines().last().and_then(|l| l.trim().parse::<u64>().ok()));
+    let _ = std::fs::remove_file(&rss_file);
+    (Run { stdout, stderr, code: status.code(), signal: status.signal(), timed_out, wall: t0.elapsed() }, rss)
+}
+
 pub fn rva(exe: &Path, args: &[&str], cwd: &Path) -> Run {
     run_limited(exe, args, cwd, 4 * 1024 * 1024, Duration::from_secs(20))
 }
